@@ -450,11 +450,30 @@ fn c16(s: &str) -> Option<String> {
         eqck!(concat!($name, " compare(s, s) static vs long-lived"), <$t as PrecisFastInvocation>::compare(s, s), long.compare(s, s));
     } } }
     one!(Nickname, "Nickname"); one!(OpaqueString, "OpaqueString"); one!(UsernameCaseMapped, "UsernameCaseMapped"); one!(UsernameCasePreserved, "UsernameCasePreserved");
-    // history independence: after all of the calls above (every profile, every form) the results still equal the
-    // specification of each operation as a function of its arguments only
-    if let Some(d) = c04(s) { return Some(format!("after calls on other profiles: {}", d)); }
-    if let Some(d) = c05(s) { return Some(format!("after calls on other profiles: {}", d)); }
-    if let Some(d) = c06(s) { return Some(format!("after calls on other profiles: {}", d)); }
+    None
+}
+// history independence, without any reference implementation (so a purely functional bug cannot raise a C16 alarm):
+// the result of each operation in THIS process (long history: every profile, every form, thousands of earlier calls)
+// must equal the result of the same single operation in a FRESH process that has made no other call.
+fn one_op(profile: &str, s: &str) -> String {
+    match profile {
+        "nick" => show(&own(Nickname::new().enforce(s))),
+        "opaque" => show(&own(OpaqueString::new().enforce(s))),
+        "ucm" => show(&own(UsernameCaseMapped::new().enforce(s))),
+        "ucp" => show(&own(UsernameCasePreserved::new().enforce(s))),
+        "snick" => show(&own(<Nickname as PrecisFastInvocation>::enforce(s))),
+        "sucm" => show(&own(<UsernameCaseMapped as PrecisFastInvocation>::enforce(s))),
+        _ => String::from("?"),
+    }
+}
+fn c16_history(s: &str) -> Option<String> {
+    let exe = std::env::current_exe().ok()?;
+    for p in ["nick", "opaque", "ucm", "ucp", "snick", "sucm"] {
+        let here = one_op(p, s);
+        let out = std::process::Command::new(&exe).args(["one", p, &json_str(s)]).output().ok()?;
+        let fresh = String::from_utf8_lossy(&out.stdout).trim().to_string();
+        if fresh != here { return Some(format!("{} enforce({}): fresh process gives {}, this process (after many other calls) gives {}", p, esc(s), fresh, here)); }
+    }
     None
 }
 fn c18(single: bool, a: u32, b_: u32, cp: u32) -> Option<String> {
@@ -513,7 +532,10 @@ fn search(pid: &str, seed: u64, budget: usize) -> Option<(String, String)> {
                        if it < 6 { t = [1, 2, 3, 4, 5, 5]; t[5 - it % 6] = (5 - it % 6) as i8; }
                        for st in 0..6 { for bw in [false, true] { if let Some(d) = c13(&t, st, bw) { return Some((format!("{{\"table\":{:?},\"start\":{},\"borrowed\":{}}}", t, st, bw), d)); } } } } None }
         "C14" => { for cp in cps_sample(seed, 20000) { if let Some(d) = c14_cp(cp) { return Some((format!("{}", cp), d)); } } None }
-        "C16" => by_str(&c16),
+        "C16" => by_str(&c16).or_else(|| {
+            for s in ["a b", "Guybrush Threepwood", " ", "a\u{a0}b", "A B", "\u{5d0} a"] { if let Some(d) = c16_history(s) { return Some((json_str(s), d)); } }
+            for s in strs.iter().filter(|s| s.chars().count() <= 3).step_by(29).take(120) { if let Some(d) = c16_history(s) { return Some((json_str(s), d)); } }
+            None }),
         "C15" => { let n = if budget > 50000 { 4000 } else { 400 }; for i in 0..n { if let Some(x) = gen15::check(seed.wrapping_mul(1000003).wrapping_add(i)) { return Some((x.0, x.1)); } } None }
         "C18" => { let pts = [0u32, 1, 2, 3, 4, 5, 6, u32::MAX - 2, u32::MAX - 1, u32::MAX];
                    for &a in &pts { for &b_ in &pts { for &cp in &pts { for single in [true, false] { if !single && a > b_ { continue; } if let Some(d) = c18(single, a, b_, cp) { return Some((format!("[{},{},{},{}]", single, a, b_, cp), d)); } } } } } None }
@@ -547,7 +569,7 @@ fn replay(pid: &str, input: &str) -> i32 {
         "C01" => if input.trim().starts_with('"') { c01(&parse_str(input)) } else { c01_cp(input.trim().parse().unwrap()) },
         "C02" => c02(&parse_str(input)), "C03" => c03(&parse_str(input)), "C04" => c04(&parse_str(input)), "C05" => c05(&parse_str(input)),
         "C06" => c06(&parse_str(input)), "C08" | "C08known" => c08(&parse_str(input)), "C09" => c09(&parse_str(input), false), "C09exact" => c09(&parse_str(input), true),
-        "C10" => c10(&parse_str(input)), "C11" => c11(&parse_str(input)), "C12" => c12(&parse_str(input)), "C16" => c16(&parse_str(input)),
+        "C10" => c10(&parse_str(input)), "C11" => c11(&parse_str(input)), "C12" => c12(&parse_str(input)), "C16" => c16(&parse_str(input)).or_else(|| c16_history(&parse_str(input))),
         "C14" => c14_cp(input.trim().parse().unwrap()),
         "C07" => { let t = input.trim().trim_start_matches('[').trim_end_matches(']'); let mid = t.find("\",\"").unwrap(); c07_pair(&parse_str(&t[..mid + 1]), &parse_str(&t[mid + 2..])) }
         _ => { println!("replay of {} inputs: re-run `search`", pid); return 2; }
@@ -561,6 +583,9 @@ fn main() {
     match a.get(1).map(|s| s.as_str()) {
         Some("search") => report(search(&a[2], a[3].parse().unwrap_or(0), a[4].parse().unwrap_or(20000))),
         Some("replay") => std::process::exit(replay(&a[2], &a[3])),
+        Some("one") => { let st = { let j = &a[3]; let mut o = String::new(); let cs: Vec<char> = j.trim().trim_matches('"').chars().collect(); let mut i = 0;
+            while i < cs.len() { if cs[i] == '\\' && i + 1 < cs.len() { match cs[i + 1] { 'u' => { let h: String = cs[i + 2..i + 6].iter().collect(); o.push(char::from_u32(u32::from_str_radix(&h, 16).unwrap()).unwrap()); i += 6; continue; } c => { o.push(c); i += 2; continue; } } } o.push(cs[i]); i += 1; } o };
+            println!("{}", one_op(&a[2], &st)); }
         Some("exhaustive") => std::process::exit(exhaustive(&a[2])),
         _ => { eprintln!("usage: verif_replay search|replay|exhaustive ..."); std::process::exit(2) }
     }
